@@ -8,10 +8,13 @@ import (
 
 	"verif/harness/core"
 	"verif/harness/drive/outline"
+	"verif/harness/drive/ph"
 )
 
 func main() {
 	switch os.Getenv("VERIF_EXT") {
+	case "ph":
+		core.Main(core.Driver{ID: "C02", Level: "model_checking", Run: ph.Run, Replay: ph.Replay, SelfTest: ph.SelfTest})
 	default:
 		core.Main(core.Driver{ID: "C16", Level: "model_checking", Run: outline.Run, SelfTest: outline.SelfTest})
 	}
